@@ -537,6 +537,9 @@ func checkLog(s *sched, lg *runLog) (findings []finding, stats map[string]int) {
 		for a := 0; a < len(rs); a++ {
 			for b := a + 1; b < len(rs); b++ {
 				A, B := rs[a], rs[b]
+				if A.ev == B.ev {
+					continue // reported as same-key-twice-in-one-response
+				}
 				if A.ev.Start > B.ev.Start {
 					A, B = B, A
 				}
